@@ -14,7 +14,7 @@ import (
 // Preset is one configuration seen from both sides: the reference constants + resolved schema,
 // and the library's *common.Spec for the same constants.
 type Preset struct {
-	Name   string // mainnet | minimal | custom-a | custom-b
+	Name   string // mainnet | minimal | custom-a | custom-b | custom-c
 	Family string // mainnet | minimal | custom
 	Cfg    *refspec.Config
 	Spec   *common.Spec
@@ -50,7 +50,26 @@ var CustomB = map[string]uint64{
 	"MAX_DEPOSIT_REQUESTS_PER_PAYLOAD": 3, "MAX_WITHDRAWAL_REQUESTS_PER_PAYLOAD": 2, "MAX_CONSOLIDATION_REQUESTS_PER_PAYLOAD": 2,
 }
 
-var PresetNames = []string{"mainnet", "minimal", "custom-a", "custom-b"}
+// custom-c: vector lengths that are not powers of two (padding leaves, masks instead of modulo),
+// SLOTS_PER_EPOCH not a power of two, a sync committee size divisible by the 4 subnets but not by 8,
+// and operation-list limits that are pairwise different AND fall into different tree depths
+// (1,2,3,5,9,17 -> depth 0..5), so that a limit constant borrowed from a neighbouring list changes both
+// the decoder's bound and the list root.
+var CustomC = map[string]uint64{
+	"SLOTS_PER_EPOCH": 6, "EPOCHS_PER_ETH1_VOTING_PERIOD": 1, "MAX_COMMITTEES_PER_SLOT": 5,
+	"VALIDATOR_REGISTRY_LIMIT": 11, "MAX_ATTESTATIONS": 3, "MAX_VALIDATORS_PER_COMMITTEE": 13,
+	"HISTORICAL_ROOTS_LIMIT": 6, "SLOTS_PER_HISTORICAL_ROOT": 12, "EPOCHS_PER_HISTORICAL_VECTOR": 10,
+	"EPOCHS_PER_SLASHINGS_VECTOR": 6, "SYNC_COMMITTEE_SIZE": 20, "MAX_TRANSACTIONS_PER_PAYLOAD": 5,
+	"MAX_BYTES_PER_TRANSACTION": 47, "MAX_WITHDRAWALS_PER_PAYLOAD": 6, "MAX_BLOB_COMMITMENTS_PER_BLOCK": 7,
+	"PENDING_DEPOSITS_LIMIT": 7, "PENDING_PARTIAL_WITHDRAWALS_LIMIT": 3, "PENDING_CONSOLIDATIONS_LIMIT": 2,
+	"MAX_PROPOSER_SLASHINGS": 1, "MAX_ATTESTER_SLASHINGS": 2, "MAX_DEPOSITS": 5, "MAX_VOLUNTARY_EXITS": 9,
+	"MAX_BLS_TO_EXECUTION_CHANGES": 17, "MAX_ATTESTATIONS_ELECTRA": 4, "MAX_ATTESTER_SLASHINGS_ELECTRA": 3,
+	"MAX_DEPOSIT_REQUESTS_PER_PAYLOAD": 5, "MAX_WITHDRAWAL_REQUESTS_PER_PAYLOAD": 3, "MAX_CONSOLIDATION_REQUESTS_PER_PAYLOAD": 2,
+}
+
+var customOverrides = map[string]map[string]uint64{"custom-a": CustomA, "custom-b": CustomB, "custom-c": CustomC}
+
+var PresetNames = []string{"mainnet", "minimal", "custom-a", "custom-b", "custom-c"}
 
 var (
 	presetMu    sync.Mutex
@@ -69,14 +88,11 @@ func GetPreset(name string) *Preset {
 	switch name {
 	case "mainnet", "minimal":
 		cfg = refspec.Official(name)
-	case "custom-a", "custom-b":
+	case "custom-a", "custom-b", "custom-c":
 		fam = "custom"
 		cfg = refspec.Official("minimal").Clone()
 		cfg.Name = "custom"
-		ov := CustomA
-		if name == "custom-b" {
-			ov = CustomB
-		}
+		ov := customOverrides[name]
 		for k, v := range ov {
 			cfg.U[k] = v
 		}
